@@ -129,7 +129,7 @@ class Model:
         self.transitions = 0
         self.viol = []
         self.stats = {'gosub_bound_hits': 0, 'return_without_gosub': 0,
-                      'handler_roots': 0}
+                      'handler_roots': 0, 'ret_drops_gosub': 0}
         self.ops_seen = set()
 
     # ------------------------------------------------------------------
@@ -544,21 +544,24 @@ class Model:
                                 arg=t[1][0] if ty(t) == '@' else ty(t))
                 acts.append(('enter', pc, ret, tuple(st)))
             elif op == 'ret':
-                if tuple(st) != ('RA',):
-                    if gdepth(st) and not shape(st):
-                        bad('ret-with-active-gosub', 'ret pops a GOSUB return address')
-                    else:
-                        bad('stack-at-return', f'ret with stack {self._shows(st)}')
+                # the machine drops whatever lies above the routine's own
+                # return address (return addresses of GOSUBs that are still
+                # active) - bound to the real CPU by the monitor, which
+                # checks where every concrete ret/retv lands.  Expression
+                # entries left at a return are still a fault of the code.
+                if not st or st[0] != 'RA' or shape(st):
+                    bad('stack-at-return', f'ret with stack {self._shows(st)}')
                 else:
+                    if gdepth(st):
+                        self.stats['ret_drops_gosub'] += 1
                     acts.append(('exit', 'ret'))
             elif op == 'retv':
-                if len(st) != 2 or st[0] != 'RA' or ty(st[1]) not in VAL:
-                    if gdepth(st):
-                        bad('ret-with-active-gosub', 'retv with an active GOSUB')
-                    else:
-                        bad('stack-at-return', f'retv with stack {self._shows(st)}')
+                if len(st) < 2 or st[0] != 'RA' or ty(st[-1]) not in VAL or shape(st[:-1]):
+                    bad('stack-at-return', f'retv with stack {self._shows(st)}')
                 else:
-                    acts.append(('exit', ('retv', ty(st[1]))))
+                    if gdepth(st):
+                        self.stats['ret_drops_gosub'] += 1
+                    acts.append(('exit', ('retv', ty(st[-1]))))
             elif op == 'ijmp':
                 if not st:
                     bad('underflow', 'ijmp: stack empty')
